@@ -645,6 +645,7 @@ def assignment_cases(jobs):
             "Definition ann (j c:Z) : list isoform :=\n  match j, c with\n" + "\n".join(annl) + "\n  | _, _ => []\n  end.")
     return PRE_ASSIGN % defs, cases, problems
 
+BATCH = 12
 CLAUSE = {11: "positive read without a consistent assignment type", 12: "a reported isoform is not compatible with the read",
           13: "full-length read: its source isoform is not among the reported ones", 14: "the source isoform is the only compatible one but the assignment is not unique to it",
           15: "read far from every annotated isoform reported with a consistent type"}
@@ -698,16 +699,18 @@ def run_pipelines(ctx, quick):
         if job["rc"] != 0:
             ctx.violation(None, "isoquant.py exits %d on a generated data set" % job["rc"], dict(seed=job["seed"], matching=job["matching"], args=job["args"], log_tail=job["log"]))
         else: done.append(job)
-    if done: judge_runs(ctx, done, "assignment_ok[pipeline]", stats)
+    for b in range(0, len(done), BATCH):       # one Coq preamble (annotations of the batch) per call: keeps the case files small
+        judge_runs(ctx, done[b:b + BATCH], "assignment_ok[pipeline]" if len(done) <= BATCH else "assignment_ok[pipeline %d]" % (b // BATCH), stats)
     return stats
 
 def run_inprocess(ctx, quick):
     from concurrent.futures import ProcessPoolExecutor
-    seeds = [ctx.seed * 100 + 50 + i for i in range(3 if quick else 30)]
-    jobs = [dict(seed=sd, matching=m, per_isoform=12 if quick else 30, n_chr=2 if quick else 3) for sd in seeds for m in MATCHING]
+    seeds = [ctx.seed * 100 + 50 + i for i in range(3 if quick else 20)]
+    jobs = [dict(seed=sd, matching=m, per_isoform=12 if quick else 24, n_chr=2 if quick else 3) for sd in seeds for m in MATCHING]
     with ProcessPoolExecutor(8) as ex: jobs = list(ex.map(inprocess_job, jobs))
     stats = collections.Counter()
-    judge_runs(ctx, jobs, "assignment_ok[in-process]", stats)
+    for b in range(0, len(jobs), BATCH):
+        judge_runs(ctx, jobs[b:b + BATCH], "assignment_ok[in-process]" if len(jobs) <= BATCH else "assignment_ok[in-process %d]" % (b // BATCH), stats)
     return stats
 
 def rebuild_params(d):
